@@ -22,6 +22,7 @@ Record scen := mkscen {
   sc_inconsumer : Z; sc_closeafter : Z; sc_latesend : Z;
   sc_failafter : Z;                        (* >= 0: injected write failure after that many writes; -1: none *)
   sc_immediate : Z;
+  sc_readtimeout : Z;                      (* seconds, 0: the harness's default (60 s) *)
   sc_waitinput : Z                         (* 1: the peer had written all its input before any Close was called *)
 }.
 
@@ -63,6 +64,11 @@ Definition decode_scen (s : sx) : option scen :=
         | SList (SInt f :: SInt i :: _) :: _ => (f, i)
         | _ => (-1, 0)
         end in
+      let readtimeout :=
+        match extras with
+        | SList (_ :: _ :: _ :: SInt r :: _) :: _ => r
+        | _ => 0
+        end in
       let waitinput :=
         match extras with
         | SList (_ :: _ :: _ :: _ :: _ :: SInt w :: _) :: _ => w
@@ -70,7 +76,7 @@ Definition decode_scen (s : sx) : option scen :=
         end in
       match sx_b hw, sx_b hr, sx_listof (sx_listof sx_pair) snd, sx_listof sx_b cls, sx_listof sx_triple inp with
       | Some hw, Some hr, Some snd, Some cls, Some inp =>
-          Some (mkscen mode ocap icap ecap hw hr snd cls inp incons closeafter latesend failafter immediate waitinput)
+          Some (mkscen mode ocap icap ecap hw hr snd cls inp incons closeafter latesend failafter immediate readtimeout waitinput)
       | _, _, _, _, _ => None
       end
   | _ => None
